@@ -1,5 +1,6 @@
 """C17 -- Gauss-Legendre rules and the integrators that use them."""
 import ast
+import copy as _copy
 
 import sympy as sp
 
@@ -24,12 +25,16 @@ MANIFEST = dict(
          "are stored under equivalent path conditions, the recompute guard is equivalent to 'a count is requested and differs from the cached key', "
          "setup runs (directly or through a method) before any use of the tables, nothing else writes them; the tables are traced to the gauleg call "
          "that made them through helpers and module-level memo dictionaries by an abstract evaluation over reaching definitions (every writer of "
-         "such a dictionary must store the rule of its key); (6) integrator formulas (affine map "
+         "such a dictionary must store the rule of its key); any other attribute the object keeps that is computed from the tables (found by "
+         "data flow over reaching definitions) is re-bound in every call before it is read, or written by setup whenever the tables are, or "
+         "reused only under a comparison with the cached count / stored under a key that contains it; (6) integrator formulas (affine map "
          "of the abscissae, weighted sum, prefactor, roles of the interpolation call) by symbolic normal forms; (7) symbolic shape and element "
          "inference of the tensor-product grid for nx != ny (which weight sits at which grid point); (8) value preservation on the data path: "
          "reaching definitions follow each input of the linear interpolation through array conversions to the segment search and the formula, "
          "and every conversion there and in the integrators (which the symbolic evaluator reads as the identity) must be value preserving "
-         "for every input dtype (no narrowing, no rounding, no dtype borrowed from another array).",
+         "for every input dtype (no narrowing, no rounding, no dtype borrowed from another array); every index used to look up the abscissa "
+         "and value tables depends on the query points only through an ordered search of the table, shifted by constants and clamped "
+         "(an index computed by arithmetic selects the bracketing segment for evenly spaced tables only).",
     note="Not decided: Newton convergence for all n, exactness to degree 2n-1, agreement with an independent rule (numerical facts). "
          "Trusted: clang AST, numpy broadcasting/meshgrid semantics as modelled, sympy normaliser.",
     technique="static analysis: reaching definitions on a C CFG (zero-trip path rule), cross-copy sibling comparison, per-statement formula conformance, typestate/memo-key discipline, symbolic shape inference",
@@ -73,6 +78,7 @@ def run(chk):
     formulas(chk, nf["cgauleg"], "cgauleg", "esutil/integrate/cgauleg_pywrap.c")
     wrapper(chk, repo, cg)
     memo(chk, repo)
+    derived_state(chk, repo)
     cached_tables_readonly(chk, repo)
     integrators(chk, repo)
     value_preservation(chk, repo)
@@ -1939,6 +1945,305 @@ def memo(chk, repo):
     chk.ob("R17.5", "qgauss::one-shot", oks, qg.where(), "qgauss(x, y, npts) is QGauss(npts).integrate(x, y) (found %s)" % shown)
 
 
+# ---------------------------------------------------------------------------
+# R17.5 (history clause): state kept on the integrator that is computed from the cached rule follows the rule's key
+# ---------------------------------------------------------------------------
+_KEY_STATE = ("self.npts",) + TABLES
+_ENTRY_METHODS = ("integrate", "integrate_func", "integrate_data")
+_MUTATORS = {"append", "extend", "insert", "update", "setdefault", "add", "__setitem__"}
+
+
+def _self_attr(e):
+    """'self.A' when e is that attribute of the object, else None"""
+    if isinstance(e, ast.Attribute) and isinstance(e.value, ast.Name) and e.value.id == "self":
+        return "self." + e.attr
+    return None
+
+
+def _attr_stores(fi):
+    """stores into attributes of the object made by the method: [(cfg node, 'self.A', whole, value, key)] -- whole: the attribute is
+    re-bound (self.A = v); otherwise something inside it is changed (self.A[k] = v, self.A.b = v, self.A.update(..), self.A += v)
+    and `key` is the subscript / first argument"""
+    out = []
+    cfg = cfg_of(fi)
+
+    def put(t, v, n, whole=True):
+        if isinstance(t, ast.Starred):
+            t = t.value
+        if isinstance(t, (ast.Tuple, ast.List)):
+            for k, e in enumerate(t.elts):
+                put(e, v.elts[k] if isinstance(v, (ast.Tuple, ast.List)) and len(v.elts) == len(t.elts) else v, n, whole)
+            return
+        a = _self_attr(t)
+        if a:
+            out.append((n, a, whole, v, None))
+            return
+        base, key = t, None
+        while isinstance(base, (ast.Subscript, ast.Attribute)) and _self_attr(base) is None:
+            key = base.slice if isinstance(base, ast.Subscript) else None
+            base = base.value
+        a = _self_attr(base)
+        if a:
+            out.append((n, a, False, v, key))
+    for n in cfg.nodes:
+        a = n.ast
+        if n.kind == "stmt" and isinstance(a, ast.Assign):
+            for t in a.targets:
+                put(t, a.value, n)
+        elif n.kind == "stmt" and isinstance(a, ast.AnnAssign) and a.value is not None:
+            put(a.target, a.value, n)
+        elif n.kind == "stmt" and isinstance(a, ast.AugAssign):
+            put(a.target, a.value, n, whole=False)
+        for c in stmts_calls_of(n):
+            f = c.func
+            if isinstance(f, ast.Attribute) and f.attr in _MUTATORS:
+                base = f.value
+                while isinstance(base, ast.Subscript) and _self_attr(base) is None:
+                    base = base.value
+                at = _self_attr(base)
+                if at:
+                    vals = list(c.args) + [k.value for k in c.keywords]
+                    out.append((n, at, False, ast.Tuple(elts=vals, ctx=ast.Load()), c.args[0] if c.args and f.attr in ("setdefault", "__setitem__") else None))
+            if call_name(c) == "setattr" and len(c.args) == 3 and norm(c.args[0]) == "self" and isinstance(const_value(c.args[1]), str):
+                out.append((n, "self." + const_value(c.args[1]), True, c.args[2], None))
+    return out
+
+
+def _mentions_rule_state(repo, fi, e, what=_KEY_STATE):
+    """does the expression read the cached key / tables (directly or through a method of the object that reads the tables);
+    the element type of a table is not a property of the rule"""
+    skip = set()
+    for x in walk_no_nested(e):
+        if isinstance(x, ast.Attribute) and x.attr in ("dtype", "ndim", "flags", "itemsize") and norm(x.value) in what:
+            skip.add(x.value)
+    for x in walk_no_nested(e):
+        if isinstance(x, ast.Attribute) and isinstance(x.ctx, ast.Load) and norm(x) in what and x not in skip:
+            return True
+        if isinstance(x, ast.Call):
+            tgt = _self_callee(repo, fi, x)
+            if tgt is not None and tgt.name != "setup" and _reads_tables(repo, tgt):
+                return True
+    return False
+
+
+def _def_sources(n):
+    """the expressions a defining CFG node takes its value(s) from"""
+    a = n.ast
+    if n.kind == "stmt" and isinstance(a, (ast.Assign, ast.AugAssign, ast.AnnAssign)):
+        return [a.value] if a.value is not None else []
+    if n.kind == "loop" and isinstance(a, ast.For):
+        return [a.iter]
+    if n.kind == "with":
+        return [i.context_expr for i in a.items]
+    return []
+
+
+def _loaded_names(e):
+    return {x.id for x in ast.walk(e) if isinstance(x, ast.Name) and isinstance(x.ctx, ast.Load)}
+
+
+def _flows_from(cfg, IN, e, node, hit, seen=None):
+    """is the value of e at the node computed (over reaching definitions, through any operation) from an expression on which
+    hit(expression) holds"""
+    seen = set() if seen is None else seen
+    if hit(e):
+        return True
+    for nm in sorted(_loaded_names(e)):
+        for d in sorted(IN.get(node.id, {}).get(nm, ())):
+            if d == cfg.entry.id or (d, nm) in seen:
+                continue
+            seen.add((d, nm))
+            dn = cfg.node(d)
+            if any(_flows_from(cfg, IN, src, dn, hit, seen) for src in _def_sources(dn)):
+                return True
+    return False
+
+
+def _class_methods(repo, cls):
+    return {f.name: f for q, f in repo.funcs.items() if q.startswith(IU + cls + ".") and f.cls == cls}
+
+
+def _call_sites(repo, methods, target):
+    """[(calling method, cfg node)] of the calls self.<target>(..) made by the methods of the class"""
+    out = []
+    for m in methods.values():
+        for n in cfg_of(m).nodes:
+            if any(_self_callee(repo, m, c) is target for c in stmts_calls_of(n)):
+                out.append((m, n))
+    return out
+
+
+def _definite_store_nodes(repo, methods, fi, attr, depth=0):
+    """CFG nodes of fi after which the attribute has been re-bound in this call: a store self.A = v, or a call of a method of the
+    object in which such a node lies on every path to the normal return"""
+    cfg = cfg_of(fi)
+    out = [n for n, a, whole, _, _ in _attr_stores(fi) if a == attr and whole]
+    if depth < 3:
+        for n in cfg.nodes:
+            for c in stmts_calls_of(n):
+                tgt = _self_callee(repo, fi, c)
+                if tgt is None or tgt is fi:
+                    continue
+                v = cfg_of(tgt).view()
+                if any(v.dominates(m, cfg_of(tgt).exit) for m in _definite_store_nodes(repo, methods, tgt, attr, depth + 1)):
+                    out.append(n)
+    return out
+
+
+def _fresh(repo, methods, fi, node, attr, depth=0):
+    """the attribute read at this node was re-bound earlier in the same call: in this method, or -- for a private helper -- before
+    every call of the helper"""
+    v = cfg_of(fi).view()
+    if any(s is not node and v.dominates(s, node) for s in _definite_store_nodes(repo, methods, fi, attr)):
+        return True
+    if depth < 3 and fi.name.startswith("_") and not fi.name.startswith("__"):
+        sites = _call_sites(repo, methods, fi)
+        return bool(sites) and all(m is not fi and _fresh(repo, methods, m, n, attr, depth + 1) for m, n in sites)
+    return False
+
+
+def _guards(repo, methods, fi, node, depth=0):
+    """the (expanded) tests that decide whether the node runs: those of its own method and, for a helper, of its call sites"""
+    v = cfg_of(fi).view()
+    out = [rules.expand(b.ast.test, fi.node) for b, _ in v.controlling_branches(node) if b.kind == "branch" or (b.kind == "loop" and isinstance(b.ast, ast.While))]
+    if depth < 3 and fi.name not in _ENTRY_METHODS:
+        for m, n in _call_sites(repo, methods, fi):
+            if m is not fi:
+                out += _guards(repo, methods, m, n, depth + 1)
+    return out
+
+
+def _compares_key(repo, fi, tests):
+    """True: some test compares the cached point count (==, !=, in); None: the key / tables occur in a test in another way; False: not at all"""
+    some = False
+    for t in tests:
+        # `self.npts is None` asks whether a rule exists at all, not which one
+        t = _DropNoneTests().visit(_copy.deepcopy(t))
+        for x in walk_no_nested(t):
+            if isinstance(x, ast.Compare) and all(isinstance(o, (ast.Eq, ast.NotEq, ast.In, ast.NotIn)) for o in x.ops) and _mentions_rule_state(repo, fi, x, ("self.npts",)):
+                return True
+        if _mentions_rule_state(repo, fi, t):
+            some = True
+    return None if some else False
+
+
+class _DropNoneTests(ast.NodeTransformer):
+    """`e is None`, `e is not None`, `e == None`, `e != None` replaced by a constant"""
+
+    def visit_Compare(self, x):
+        if len(x.ops) == 1 and isinstance(x.ops[0], (ast.Is, ast.IsNot, ast.Eq, ast.NotEq)) and (_is_none(x.left) or _is_none(x.comparators[0])):
+            return ast.copy_location(ast.Constant(value=True), x)
+        return self.generic_visit(x)
+
+
+def derived_state(chk, repo):
+    """'results do not depend on point counts used in earlier calls on the same object': besides the key and the two tables, anything
+    the object keeps from one call to the next that was computed from the tables (mapped abscissae, scaled weights, function values
+    at the nodes ...) belongs to the rule of the count it was computed for.  Necessary: such an attribute is (a) re-bound in every
+    call before it is read, or (b) written by setup whenever setup rewrites the tables, or (c) reused only under a test that compares
+    the cached count / stored under a key that contains it.  Otherwise a call with another npts reuses values of the old rule."""
+    methods = _class_methods(repo, "QGauss")
+    setup = repo.func(IU + "QGauss.setup")
+    # methods whose reads matter: the integrators and the methods of the object they call
+    scope, todo = {}, [methods[m] for m in _ENTRY_METHODS if m in methods]
+    while todo:
+        f = todo.pop()
+        if f.name in scope:
+            continue
+        scope[f.name] = f
+        for x in walk_no_nested(f.node):
+            if isinstance(x, ast.Call):
+                tgt = _self_callee(repo, f, x)
+                if tgt is not None and tgt.name != "setup":
+                    todo.append(tgt)
+    stores = {}
+    for f in methods.values():
+        cfg = cfg_of(f)
+        IN, _ = cfg.view().reaching_defs()
+        for n, attr, whole, val, key in _attr_stores(f):
+            if attr in _KEY_STATE:
+                continue
+            derived = val is not None and _flows_from(cfg, IN, val, n, lambda e, f=f: _mentions_rule_state(repo, f, e, TABLES))
+            stores.setdefault(attr, []).append((f, n, whole, val, key, derived))
+    kept = sorted(a for a, st in stores.items() if any(s[5] for s in st))
+    chk.ob("R17.5", "QGauss::state-derived-from-the-tables", True, setup.where(),
+           "attributes of the object computed from the cached tables: %s" % (kept or "none besides the tables themselves"))
+    atoms = {}
+    vs = cfg_of(setup).view()
+    tab_nodes = [n for n, a, whole, _, _ in _attr_stores(setup) if a in TABLES]
+    for attr in kept:
+        reads = []
+        for f in scope.values():
+            for n in cfg_of(f).nodes:
+                if n.ast is None or n.kind in ("def", "handler", "try"):
+                    continue
+                roots = [n.ast.test] if n.kind == "branch" or (n.kind == "loop" and isinstance(n.ast, ast.While)) else \
+                    [n.ast.iter] if n.kind == "loop" else [i.context_expr for i in n.ast.items] if n.kind == "with" else [n.ast]
+                if any(isinstance(x, ast.Attribute) and isinstance(x.ctx, ast.Load) and _self_attr(x) == attr for r in roots for x in walk_no_nested(r)):
+                    reads.append((f, n))
+        stale = [(f, n) for f, n in reads if not _fresh(repo, methods, f, n, attr)]
+        dst = [s for s in stores[attr] if s[5]]
+        f0, n0 = dst[0][0], dst[0][1]
+        key = "QGauss::derived-state-follows-the-key::%s" % attr
+        if not stale:
+            chk.ob("R17.5", key, True, f0.where(n0.ast), "%s is computed from the tables and re-bound in every call before it is read (%d reads)" % (attr, len(reads)))
+            continue
+        # (b) setup writes it whenever it rewrites the tables
+        resets = [n for n, a, whole, _, _ in _attr_stores(setup) if a == attr and whole]
+        if tab_nodes and resets:
+            pct = [_path_cond(vs, t, setup.node, atoms) for t in tab_nodes]
+            pcr = sp.Or(*[_path_cond(vs, r, setup.node, atoms) for r in resets])
+            from sympy.logic.inference import satisfiable
+            if all(not satisfiable(sp.And(p, sp.Not(pcr))) for p in pct):
+                chk.ob("R17.5", key, True, f0.where(n0.ast), "%s is computed from the tables; setup writes it whenever it recomputes them" % attr)
+                continue
+        # (c) reuse decided by a comparison of the count / stored under a key that contains the count
+        verdicts = []
+        shown = []
+        for f, n, whole, val, k, _ in dst:
+            if f is setup:
+                continue
+            tests = _guards(repo, methods, f, n) + ([rules.expand(k, f.node)] if k is not None else [])
+            if k is not None and _mentions_rule_state(repo, f, rules.expand(k, f.node), ("self.npts",)):
+                verdicts.append(True)
+                continue
+            verdicts.append(_compares_key(repo, f, tests))
+            shown.append("%s.%s stores it %s" % ("QGauss", f.name, ("when `%s`" % "` / `".join(norm(t)[:90] for t in tests[:3])) if tests else "unconditionally"))
+        # the reads that may see an earlier call's value: also their own guards may compare the count
+        if verdicts and all(v is False for v in verdicts):
+            rv = [_compares_key(repo, f, _guards(repo, methods, f, n)) for f, n in stale]
+            if any(r is not False for r in rv):
+                verdicts = [None]
+        ok = None if not verdicts else (False if all(v is False for v in verdicts) else (True if all(v is True for v in verdicts) else None))
+        f1, n1 = stale[0]
+        chk.ob("R17.5", key, ok, f0.where(n0.ast),
+               "%s holds values computed from the cached tables (self.xxi / self.wii) and `%s` in QGauss.%s can read what an earlier call left there%s"
+               % (attr, norm(n1.ast)[:70] if n1.kind not in ("branch", "loop") else norm(n1.ast.test if hasattr(n1.ast, "test") else n1.ast.iter)[:70], f1.name,
+                  "; reuse is decided by a comparison with the cached point count" if ok else
+                  ": %s; no test on that path compares the point count and setup does not reset it when it recomputes the tables, so after a call with another npts "
+                  "the values of the old rule are used" % "; ".join(shown[:2]) if ok is False else
+                  ": %s; how its reuse is tied to the point count was not recognised" % "; ".join(shown[:2])))
+
+
+
+class _NoTerm:
+    """the symbolic evaluator met a construct it does not model: no term, so no verdict from the formula rule built on it
+    (the other rules of the check still give theirs)"""
+
+    def __init__(self, why):
+        self.why = why
+
+    def __repr__(self):
+        return "no term: %s" % self.why
+
+
+def _sym_run(se, fi, env):
+    try:
+        return se.run(fi, env, {})
+    except symx.Unsupported as e:
+        return _NoTerm(str(e))
+
+
 def integrators(chk, repo):
     SUM = sp.Function("SUM")
     xxi, wii, a, b, func = symx.symbols("xxi", "wii", "a", "b", "func")
@@ -1946,32 +2251,32 @@ def integrators(chk, repo):
     chk.analysed_unit(fi.qualname)
     se = symx.SymEval(repo, opaque_tests=False)
     se.assume = {"text:self.npts is None": False, "text:len(xvals) != 2": False}
-    r = se.run(fi, {"self": symx.Opaque("self"), "xvals": [a, b], "func": func, "self.xxi": xxi, "self.wii": wii, "self.npts": sp.Symbol("n")}, {})
+    r = _sym_run(se, fi, {"self": symx.Opaque("self"), "xvals": [a, b], "func": func, "self.xxi": xxi, "self.wii": wii, "self.npts": sp.Symbol("n")})
     f1, f2 = (b - a) / 2, (b + a) / 2
     ref = f1 * SUM(sp.Function("func")(xxi * f1 + f2) * wii)
     eq = isinstance(r, sp.Basic) and symx.equal(r, ref)[0]
-    chk.ob("R17.6", "integrate_func::formula", bool(eq), fi.where(), "result is (b-a)/2 * sum(w_i f((b-a)/2 x_i + (a+b)/2)) (found %s)" % r)
+    chk.ob("R17.6", "integrate_func::formula", None if isinstance(r, _NoTerm) else bool(eq), fi.where(), "result is (b-a)/2 * sum(w_i f((b-a)/2 x_i + (a+b)/2)) (found %s)" % r)
     fi = repo.func(IU + "QGauss.integrate_data")
     chk.analysed_unit(fi.qualname)
     xs, ys = symx.symbols("xs", "ys")
     se = symx.SymEval(repo, opaque={"esutil.stat.util.interplin"}, opaque_tests=False)
     se.assume = {"text:self.npts is None": False}
-    r = se.run(fi, {"self": symx.Opaque("self"), "xvals": xs, "yvals": ys, "self.xxi": xxi, "self.wii": wii, "self.npts": sp.Symbol("n")}, {})
+    r = _sym_run(se, fi, {"self": symx.Opaque("self"), "xvals": xs, "yvals": ys, "self.xxi": xxi, "self.wii": wii, "self.npts": sp.Symbol("n")})
     lo, hi = sp.Function("MIN")(xs), sp.Function("MAX")(xs)
     f1, f2 = (hi - lo) / 2, (hi + lo) / 2
     ref = f1 * SUM(sp.Function("interplin")(ys, xs, xxi * f1 + f2) * wii)
     eq = isinstance(r, sp.Basic) and symx.equal(r, ref)[0]
-    chk.ob("R17.6", "integrate_data::formula", bool(eq), fi.where(), "result is the weighted sum of the linearly interpolated data interplin(values=y, abscissae=x, at=mapped nodes) over [min x, max x] (found %s)" % r)
+    chk.ob("R17.6", "integrate_data::formula", None if isinstance(r, _NoTerm) else bool(eq), fi.where(), "result is the weighted sum of the linearly interpolated data interplin(values=y, abscissae=x, at=mapped nodes) over [min x, max x] (found %s)" % r)
     fi = repo.func(IU + "QGauss2.integrate_func")
     chk.analysed_unit(fi.qualname)
     xg, yg, wg, c, d = symx.symbols("xg", "yg", "wg", "c", "d")
     se = symx.SymEval(repo, opaque_tests=False)
     se.assume = {"text:len(xrng) != 2 or len(yrng) != 2": False}
-    r = se.run(fi, {"self": symx.Opaque("self"), "xrng": [a, b], "yrng": [c, d], "func": func, "self.xgrid": xg, "self.ygrid": yg, "self.wgrid": wg}, {})
+    r = _sym_run(se, fi, {"self": symx.Opaque("self"), "xrng": [a, b], "yrng": [c, d], "func": func, "self.xgrid": xg, "self.ygrid": yg, "self.wgrid": wg})
     xf1, xf2, yf1, yf2 = (b - a) / 2, (b + a) / 2, (d - c) / 2, (d + c) / 2
     ref = xf1 * yf1 * SUM(sp.Function("func")(xg * xf1 + xf2, yg * yf1 + yf2) * wg)
     eq = isinstance(r, sp.Basic) and symx.equal(r, ref)[0]
-    chk.ob("R17.6", "QGauss2.integrate_func::formula", bool(eq), fi.where(), "tensor-product sum with both affine maps and the product prefactor (found %s)" % r)
+    chk.ob("R17.6", "QGauss2.integrate_func::formula", None if isinstance(r, _NoTerm) else bool(eq), fi.where(), "tensor-product sum with both affine maps and the product prefactor (found %s)" % r)
 
 
 # ---------------------------------------------------------------------------
@@ -2264,6 +2569,7 @@ def value_preservation(chk, repo):
            "the bracketing segment is found by searching the abscissa table as given for the query points as given (only value-keeping array conversions in between)%s"
            % ("" if ok else (": " + "; ".join(msgs) + " -- the segment is then chosen for other abscissae than the ones interpolated to, so the result is extrapolated from a neighbouring segment"
                             if msgs else ": %d searches found, operands not traced to the inputs" % len(searches))))
+    segment_index(chk, fi, flow, roles, searches)
     # (b) every conversion applied to an input of the interpolation
     per = {p: [] for p in flow.params}
     for n, c in flow.conversions():
@@ -2289,6 +2595,220 @@ def value_preservation(chk, repo):
         chk.ob("R17.8", "%s::conversions-keep-values" % q, ok, f.where(lossy[0].call) if lossy else f.where(),
                "every array conversion on the way from the arguments to the weighted sum keeps the values (%d conversions)%s"
                % (len(steps), "" if not (lossy or undecided) else ": " + "; ".join(s.text() for s in (lossy or undecided)[:3])))
+
+
+# ---------------------------------------------------------------------------
+# R17.8 (segment clause): which segment is interpolated is decided by an ordered search of the table
+# ---------------------------------------------------------------------------
+_CLAMPS = {"clip", "minimum", "maximum", "fmin", "fmax"}
+_ARRAY_METHODS = {"astype", "round", "clip", "copy", "ravel", "flatten", "squeeze", "view", "reshape", "item", "min", "max", "sum", "cumsum", "mean"}
+_PLAIN_BUILTINS = {"int", "float", "abs", "min", "max", "len", "round", "divmod", "range"}
+_APPROX = {"allclose", "isclose", "assert_allclose", "assert_almost_equal"}
+
+
+class _Seg:
+    """follows the index that selects the interpolated segment back to where it is made"""
+
+    def __init__(self, flow, p_qry, searches):
+        self.flow, self.cfg, self.IN = flow, flow.cfg, flow.IN
+        self.p_qry = p_qry
+        self.search_calls = [c for _, c, _, _ in searches]
+
+    def dep(self, e, node):
+        """does the value depend on the query points"""
+        return self._dep_names(_loaded_names(e), node, set())
+
+    def _dep_names(self, names, node, seen):
+        for nm in sorted(names):
+            for d in sorted(self.IN.get(node.id, {}).get(nm, ())):
+                if d == self.cfg.entry.id:
+                    if nm == self.p_qry:
+                        return True
+                    continue
+                if (d, nm) in seen:
+                    continue
+                seen.add((d, nm))
+                dn = self.cfg.node(d)
+                if self._dep_names(set(self.cfg.defs_uses(dn)[1]), dn, seen):
+                    return True
+        return False
+
+    def guards_of(self, node):
+        return [(b.ast.test, lab) for b, lab in self.flow.view.controlling_branches(node) if b.kind == "branch" or (b.kind == "loop" and isinstance(b.ast, ast.While))]
+
+    def is_search(self, e):
+        return any(e is c for c in self.search_calls)
+
+    def alts(self, e, node, guards=(), seen=frozenset(), depth=0):
+        """[(kind, expression, node, guards)]: kind 'search' (result of an ordered search of the table), 'bound' (does not depend on
+        the query points: a clamp limit), 'computed' (made from the query points by arithmetic alone), 'unknown'"""
+        if depth > 14:
+            return [("unknown", e, node, guards)]
+        if not self.dep(e, node):
+            return [("bound", e, node, guards)]
+        if isinstance(e, ast.Call) and self.is_search(e):
+            return [("search", e, node, guards)]
+        if isinstance(e, ast.Name):
+            out = []
+            for d in sorted(self.IN.get(node.id, {}).get(e.id, ())):
+                if d == self.cfg.entry.id:
+                    out.append(("computed", e, node, guards))      # the query points themselves used as an index
+                    continue
+                if (d, e.id) in seen:
+                    continue
+                dn = self.cfg.node(d)
+                a = dn.ast
+                g = tuple(guards) + tuple(self.guards_of(dn))
+                if dn.kind == "stmt" and isinstance(a, ast.Assign) and len(a.targets) == 1 and isinstance(a.targets[0], ast.Name):
+                    out += self.alts(a.value, dn, g, seen | {(d, e.id)}, depth + 1)
+                elif dn.kind == "stmt" and isinstance(a, ast.AnnAssign) and isinstance(a.target, ast.Name) and a.value is not None:
+                    out += self.alts(a.value, dn, g, seen | {(d, e.id)}, depth + 1)
+                elif dn.kind == "stmt" and isinstance(a, ast.AugAssign) and isinstance(a.target, ast.Name) and isinstance(a.op, (ast.Add, ast.Sub)) and not self.dep(a.value, dn):
+                    prev = ast.copy_location(ast.Name(id=e.id, ctx=ast.Load()), a)
+                    out += self.alts(prev, dn, g, seen | {(d, e.id)}, depth + 1)
+                else:
+                    out.append(("unknown", e, dn, g))
+            # elements written in place into the index array (xm[w] = limit)
+            for n in self.cfg.nodes:
+                a = n.ast
+                if n.kind != "stmt" or not isinstance(a, (ast.Assign, ast.AugAssign)):
+                    continue
+                for t in (a.targets if isinstance(a, ast.Assign) else [a.target]):
+                    if isinstance(t, ast.Subscript) and isinstance(t.value, ast.Name) and t.value.id == e.id and ("store", n.id, e.id) not in seen:
+                        if isinstance(a, ast.AugAssign) and self.dep(a.value, n):
+                            out.append(("unknown", a.value, n, guards))
+                        elif isinstance(a, ast.Assign):
+                            out += self.alts(a.value, n, tuple(guards) + tuple(self.guards_of(n)), seen | {("store", n.id, e.id)}, depth + 1)
+            return out
+        if isinstance(e, ast.IfExp):
+            return self.alts(e.body, node, tuple(guards) + ((e.test, "T"),), seen, depth + 1) + self.alts(e.orelse, node, tuple(guards) + ((e.test, "F"),), seen, depth + 1)
+        if isinstance(e, ast.BinOp) and isinstance(e.op, (ast.Add, ast.Sub)):
+            dl, dr = self.dep(e.left, node), self.dep(e.right, node)
+            if dl != dr and not (dr and isinstance(e.op, ast.Sub)):
+                return self.alts(e.left if dl else e.right, node, guards, seen, depth + 1)
+        if isinstance(e, ast.Call):
+            c = self.flow.conversion(e)
+            if c is not None:
+                return self.alts(c[0], node, guards, seen, depth + 1)
+            nm = self.flow._numpy_func(e)
+            f = e.func
+            if nm in _CLAMPS and e.args and not any(k.arg == "out" for k in e.keywords):
+                out = []
+                for a in list(e.args) + [k.value for k in e.keywords if k.arg in ("a_min", "a_max", "min", "max")]:
+                    out += self.alts(a, node, guards, seen, depth + 1)
+                return out
+            if nm is None and isinstance(f, ast.Attribute) and f.attr == "clip":
+                out = self.alts(f.value, node, guards, seen, depth + 1)
+                for a in list(e.args) + [k.value for k in e.keywords]:
+                    out += self.alts(a, node, guards, seen, depth + 1)
+                return out
+            if nm == "where" and len(e.args) == 3:
+                return self.alts(e.args[1], node, tuple(guards) + ((e.args[0], "T"),), seen, depth + 1) + \
+                    self.alts(e.args[2], node, tuple(guards) + ((e.args[0], "F"),), seen, depth + 1)
+        return [(self.classify(e, node, set()), e, node, guards)]
+
+    def classify(self, e, node, seen):
+        """an expression that depends on the query points and is none of the recognised forms: 'computed' when it consists of
+        arithmetic, subscripts and numpy / array-method calls only and no ordered search takes part in it, else 'unknown'"""
+        for x in walk_no_nested(e):
+            if isinstance(x, ast.Call):
+                if self.is_search(x) or call_name(x) in ("searchsorted", "digitize", "bisect", "bisect_left", "bisect_right", "interp", "argmax", "argmin", "argsort", "nonzero", "where"):
+                    return "unknown"
+                f = x.func
+                plain = self.flow._numpy_func(x) is not None or (isinstance(f, ast.Attribute) and f.attr in _ARRAY_METHODS) or (isinstance(f, ast.Name) and f.id in _PLAIN_BUILTINS)
+                if not plain:
+                    return "unknown"
+            elif isinstance(x, (ast.Lambda, ast.ListComp, ast.GeneratorExp, ast.SetComp, ast.DictComp, ast.Await, ast.Yield, ast.YieldFrom, ast.NamedExpr, ast.Starred)):
+                return "unknown"
+        for nm in sorted(_loaded_names(e)):
+            for d in sorted(self.IN.get(node.id, {}).get(nm, ())):
+                if d == self.cfg.entry.id or (d, nm) in seen:
+                    continue
+                seen.add((d, nm))
+                dn = self.cfg.node(d)
+                if not self._dep_names({nm}, node, set()):
+                    continue
+                a = dn.ast
+                if dn.kind == "stmt" and isinstance(a, (ast.Assign, ast.AnnAssign, ast.AugAssign)) and a.value is not None \
+                        and all(isinstance(t, ast.Name) for t in (a.targets if isinstance(a, ast.Assign) else [a.target])):
+                    if self.classify(a.value, dn, seen) == "unknown":
+                        return "unknown"
+                else:
+                    return "unknown"
+        return "computed"
+
+    def exact_spacing_test(self, guards, fn):
+        """is one of the tests an exact statement about all elements (all(a == b), array_equal): the arithmetic index may then be
+        the right one for the tables that pass it; tolerance tests (allclose, |d| < eps) are not"""
+        for t, _ in guards:
+            t = rules.expand(t, fn)
+            for x in walk_no_nested(t):
+                if isinstance(x, ast.Call) and call_name(x) in _APPROX:
+                    return False
+            for x in walk_no_nested(t):
+                if isinstance(x, ast.Call) and call_name(x) in ("all", "alltrue", "array_equal", "array_equiv"):
+                    inner = [y for a in ([x.func.value] if isinstance(x.func, ast.Attribute) and not self.flow._numpy_func(x) else []) + list(x.args) for y in walk_no_nested(a)]
+                    if call_name(x).startswith("array_eq") or any(isinstance(y, ast.Compare) and all(isinstance(o, ast.Eq) for o in y.ops) for y in inner):
+                        return True
+        return False
+
+
+def segment_index(chk, fi, flow, roles, searches):
+    """R17.8: 'the linearly interpolated values ... including unevenly spaced x'.  The segment [x[k], x[k+1]] used for a query point
+    must be the one that brackets it in the table as given, for any spacing; necessary: every index with which the abscissa and
+    value tables are looked up depends on the query points only through an ordered search of the table (searchsorted / digitize),
+    shifted by constants and clamped to the ends.  An index computed from the query points by arithmetic (floor((u - x0)/dx) ...)
+    is the bracketing one for evenly spaced tables only."""
+    p_val, p_tab, p_qry = flow.params
+    seg = _Seg(flow, p_qry, searches)
+    lookups = []
+    for n in flow.cfg.nodes:
+        if n.ast is None or n.kind in ("def", "handler", "try"):
+            continue
+        roots = [n.ast.test] if n.kind == "branch" or (n.kind == "loop" and isinstance(n.ast, ast.While)) else \
+            [n.ast.iter] if n.kind == "loop" else [i.context_expr for i in n.ast.items] if n.kind == "with" else [n.ast]
+        for r in roots:
+            for x in walk_no_nested(r):
+                base = idx = None
+                if isinstance(x, ast.Subscript) and isinstance(x.ctx, ast.Load) and not _plain_slice(x.slice):
+                    base, idx = x.value, x.slice
+                elif isinstance(x, ast.Call) and call_name(x) == "take" and x.args:
+                    if flow._numpy_func(x) is not None and len(x.args) >= 2:
+                        base, idx = x.args[0], x.args[1]
+                    elif isinstance(x.func, ast.Attribute):
+                        base, idx = x.func.value, x.args[0]
+                if base is None or isinstance(idx, ast.Tuple):
+                    continue
+                srcs = {p for p, _ in flow.origins(base, n)}
+                if srcs and srcs <= {p_val, p_tab} and seg.dep(idx, n):
+                    lookups.append((n, x, idx))
+    key = "interplin::segment-index-from-ordered-search"
+    if not lookups:
+        chk.ob("R17.8", key, None, fi.where(), "no lookup of the abscissa / value tables with an index that depends on the query points was found")
+        return
+    bad, exact, unknown, n_search = [], [], [], 0
+    for n, x, idx in lookups:
+        for kind, e, dn, guards in seg.alts(idx, n, tuple(seg.guards_of(n))):
+            if kind == "search":
+                n_search += 1
+            elif kind == "computed":
+                (exact if seg.exact_spacing_test(guards, fi.node) else bad).append((x, e, dn, guards))
+            elif kind == "unknown":
+                unknown.append((x, e, dn))
+    if bad:
+        x, e, dn, guards = bad[0]
+        g = [("`%s`" if lab == "T" else "not `%s`") % norm(rules.expand(t, fi.node))[:110] for t, lab in guards]
+        chk.ob("R17.8", key, False, fi.where(e),
+               "the index in the table lookup `%s` is, on some path, `%s`: computed from the query points by arithmetic, not found by an ordered search of the abscissa table; "
+               "that is the bracketing segment for evenly spaced tables only, and %s -- for unevenly spaced x the value is interpolated on the wrong segment"
+               % (norm(x)[:40], norm(e)[:90], ("the test guarding it (%s) does not establish exactly even spacing (a tolerance test passes uneven tables whose spacings are below the tolerance)" % " and ".join(g)) if g else "nothing restricts it to such tables"))
+        return
+    ok = None if (exact or unknown or not n_search) else True
+    what = ("a computed index `%s` is used under an exact all-elements test: whether it selects the bracketing segment is a numerical question" % norm(exact[0][1])[:80]) if exact else \
+        ("the index `%s` was not traced to an ordered search" % norm(unknown[0][1])[:80]) if unknown else ""
+    chk.ob("R17.8", key, ok, fi.where(), "every index used to look up the abscissa and value tables (%d lookups) comes from an ordered search of the table, shifted and clamped only%s"
+           % (len(lookups), "" if ok else ": " + what))
+
 
 
 class _Arr:
